@@ -63,6 +63,7 @@ pub mod verif_hooks {
     };
     pub use super::reload::{IpReload, ReloadRefusal, analyze_ip_reload, analyze_ip_reload_text};
     pub use super::uplink::{ReaderHandle, UplinkPacket, create_uplink_channel};
+    pub use super::uplink::{restart_reader_for, spawn_reader, sync_readers};
 
     /// Thin wrapper: the original is `pub(crate)`.
     pub fn attribute_nak(
